@@ -380,6 +380,9 @@ type c13Compact struct {
 	openFn func(path string) (c13Lookup, func(), error)
 }
 
+// c13Prefetch selects the prefetch mode of the compact-index readers opened over a ReaderAt.
+var c13Prefetch bool
+
 func c13Compacts(w *c13World) []c13Compact {
 	t := w.A.Truth
 	var out []c13Compact
@@ -405,6 +408,7 @@ func c13Compacts(w *c13World) []c13Compact {
 			if err != nil {
 				return nil, nil, err
 			}
+			rd.Prefetch(c13Prefetch) // the server turns this on for indexes served over http(s)
 			return mk(rd), func() { rd.Close() }, nil
 		}
 		c.openFn = func(p string) (c13Lookup, func(), error) {
@@ -438,6 +442,7 @@ func c13Compacts(w *c13World) []c13Compact {
 			if err != nil {
 				return nil, nil, err
 			}
+			rd.Prefetch(c13Prefetch) // the server turns this on for indexes served over http(s)
 			return mk(rd), func() { rd.Close() }, nil
 		}
 		c.openFn = func(p string) (c13Lookup, func(), error) {
@@ -471,6 +476,7 @@ func c13Compacts(w *c13World) []c13Compact {
 			if err != nil {
 				return nil, nil, err
 			}
+			rd.Prefetch(c13Prefetch) // the server turns this on for indexes served over http(s)
 			return mk(rd), func() { rd.Close() }, nil
 		}
 		c.openFn = func(p string) (c13Lookup, func(), error) {
@@ -504,6 +510,7 @@ func c13Compacts(w *c13World) []c13Compact {
 			if err != nil {
 				return nil, nil, err
 			}
+			rd.Prefetch(c13Prefetch) // the server turns this on for indexes served over http(s)
 			return mk(rd), func() { rd.Close() }, nil
 		}
 		c.openFn = func(p string) (c13Lookup, func(), error) {
@@ -595,6 +602,17 @@ func (r *c13Run) sectionCompact(w *c13World) {
 				r.R.Sample(c13Case{Section: "compact-readerat", File: c.file, Cut: cut, Size: size, Key: "every stored key"})
 			}
 		}
+		// (a') the same with the readers' prefetch mode on (used for indexes served over http/https)
+		c13Prefetch = true
+		for _, cut := range c13AllCuts(size, false) {
+			if !r.take("compact-readerat-prefetch", c.file, cut) {
+				continue
+			}
+			rc := &c13Cut{b: full, limit: int64(cut)}
+			r.openAndLookup("compact-readerat-prefetch", c.file, "indexes.OpenWithReader+Prefetch", cut, size, regs, c.keys, refs, refMeta, c.empty,
+				func() (c13Lookup, func(), error) { return c.open(rc) })
+		}
+		c13Prefetch = false
 		// (b) really truncated copy (os.File), every offset, descending so that one copy is truncated in place
 		p := filepath.Join(r.base, "cut-"+c.file+".index")
 		c13CopyFile(p, c.path)
